@@ -33,20 +33,20 @@ def run(ctx, res):
         "readers only advance their cursors through channel_read_map/unmap (R-ENCAPS) under the lock",
         "flag values read twice within one hold of the lock are equal (used to prune contradictory branches)",
     ]
-    rule_write_guard(prog, res)
+    res.guard(rule_write_guard, prog, res)
     if rule_full_guard(prog, res, la) < 2:
         from ..build import AnalysisBroken
         raise AnalysisBroken("next_write: fewer than two grant returns found")
-    rule_stale_across_wait(prog, res, la, CHANNEL_FIELDS)
-    n = rule_encaps(prog, res, la)
-    LR.rule_l_pair(la, res, channel_functions(prog))
+    res.guard(rule_stale_across_wait, prog, res, la, CHANNEL_FIELDS)
+    n = res.guard(rule_encaps, prog, res, la) or 0
+    res.guard(LR.rule_l_pair, la, res, channel_functions(prog))
     LR.rule_l_guarded(la, res, ("channel", "lock"), CHANNEL_FIELDS,
                       exempt_fns={"video_sink_bytes_waiting": "advisory statistic, read-only, outside every property"})
-    rule_dimensions(prog, res)
-    rule_cursor_pair(prog, res, la)
-    rule_cursor_copy(prog, res, la)
+    res.guard(rule_dimensions, prog, res)
+    res.guard(rule_cursor_pair, prog, res, la)
+    res.guard(rule_cursor_copy, prog, res, la)
     from ..channelarith import rule_linear
-    rule_linear(prog, res)
+    res.guard(rule_linear, prog, res)
     res.require_min("R-LIN", 15)
     res.require_min("R-WRITE-GUARD", 1)
     res.require_min("R-ENCAPS", 5)
